@@ -91,6 +91,10 @@ async def explore(tier, seed):
         # bytes documents that are NOT valid UTF-8 (a latin-1 comment / a stray byte in a name): whatever the uncached engine answers
         pool.append(("bytes-not-utf8", "{ __typename } # caf\xe9".encode("latin-1"), None, None))
         pool.append(("bytes-not-utf8", b"{ __typename n\xffme }", None, None))
+        # refused documents whose errors point at SEVERAL nodes (duplicate argument, unused variable, two anonymous operations)
+        pool.append(("invalid-multinode", "{ __typename @skip(if: true, if: false) }", None, None))
+        pool.append(("invalid-multinode", "query Q($u: Int, $u: Int) { __typename }", "Q", None))
+        pool.append(("invalid-multinode", "{ __typename }\n{ a: __typename }", None, None))
         pool.append(("ctx", "{ ctxProbe again: ctxProbe }", None, None)); pool.append(("ctx", "{ __typename ctxProbe }", None, None))
         pool.append(("junk", "", None, None)); pool.append(("junk", "{", None, None))
         # introspection selections under different response keys / positions (refused as a field error when the schema forbids it)
